@@ -81,6 +81,7 @@ class Check(PropertyCheck):
                 kinds.append("earliest_start_time")
         ids = []
         nid = 0
+        have = {}
         for k in kinds:
             sup = SUPPORTED.get(k, "omj")
             if rng.random() < 0.5:
@@ -88,6 +89,7 @@ class Check(PropertyCheck):
             else:
                 fts = "".join(rng.sample(sup, rng.randint(1, len(sup))))
             lines.append(f"fobs {k} {fts}")
+            have[k] = fts
         lines.append("fcomp all")
         if rng.random() < 0.4:
             lines.append("fcomp all")          # a composite that contains the first composite (a multi-column component)
@@ -97,7 +99,13 @@ class Check(PropertyCheck):
         tr = gen.Tracker(jobs)
         n_acc = 0
         resets_left = rng.choice([0, 0, 1, 2])      # truncated episodes: reset while operations are still running
+        # the observer-based rule reads the observers (it must only READ); asked only when the two observers it looks up
+        # (Duration and IsReady with job features) are among the subscribed ones, so that it creates none of its own
+        ask_rule = (rng.random() < 0.6 and not long_times and all(k in have and (have[k] == "-" or "j" in have[k])
+                                                                 for k in ("duration", "is_ready")))
         while not tr.done():
+            if ask_rule and rng.random() < 0.7:
+                lines.append("rule " + rng.choice(["omwkr", "omwkr", "omwkr", "mwkr"]))
             j, p, m = gen.gen_valid_request(rng, tr)
             tr.take(j)
             n_acc += 1
